@@ -379,6 +379,11 @@ def build_unit(template, repo, out_path, contracts_dir=None, vacuity=False):
                 if _depth_at(m, 0, h.start()) == 0:
                     hit = h
                     break
+            if not hit and "nested" in opts:
+                # opt-in: an item declared inside a `mod { .. }` block (first textual match of the declaration)
+                for h in rx.finditer(m):
+                    hit = h
+                    break
             if not hit:
                 raise AnchorError(f"item not found: {what} in {rel}")
             e = next_at_depth0(m, hit.end(), "{;")
